@@ -96,3 +96,13 @@ Theorem C02_every_history_is_gated : forall sp es st0 st e st',
   gated_sub sp (observed_sub (oe_w e) u) (oe_w e) (synced_br (observed_sub (oe_w e) u) (oe_br e)) v = true.
 Proof. exact every_history_is_gated. Qed.
 Print Assumptions C02_every_history_is_gated.
+
+(* plan edits: while the current step of the edited plan still covers the released replicas, the re-positioning lands on the
+   current step itself (so the edit cannot be used to get past its pause) *)
+Theorem C02_plan_edit_repositions_at_the_current_step : forall sp u w b p cr cur,
+  1 <= su_idx u <= nsteps sp -> br_partition b = Some p -> znth (br_batches b) p = Some cr ->
+  get_step sp (su_idx u) = Some cur ->
+  scaled true cr (wl_replicas w) <= scaled true (sp_replicas cur) (wl_replicas w) ->
+  recalc_step sp u w (Some b) = Some (su_idx u).
+Proof. exact recalc_current_step_covers. Qed.
+Print Assumptions C02_plan_edit_repositions_at_the_current_step.
